@@ -4,11 +4,13 @@ import pubsub_corr
 
 def explore(run, lean):
     pubsub_corr.explore(run, 48 if run.tier == "quick" else 10 ** 6)
-    run.extra["rule"] = ("configuration space: subscriber spied/un-spied x subscribe before start / after start from outside / "
+    pubsub_corr.explore_position(run, focus="C07")
+    run.extra["rule"] = ("(a) configuration space: subscriber spied/un-spied x subscribe before start / after start from outside / "
                          "from its own handler x fifo/lifo x 0-2 other active objects already subscribed x publisher spied/un-spied x "
                          "publish before start / outside / own handler = 216 configurations (quick: a seeded sample of 48, thorough: all); "
                          "each is run on real ActiveObjects under the deterministic scheduler to quiescence and compared with the "
-                         "outcome predicted by the Lean decision-logic model")
+                         "outcome predicted by the Lean decision-logic model; (b) delivery to an object that has other events pending (stopped object, "
+                         "X1 and X2 posted, then PING published): 18 ways of subscribing (fifo / lifo / both) plus small capacities")
 
 
 def replay(case):
